@@ -64,6 +64,22 @@ func runC05(r *fw.Run, p *fw.Program) {
 		runC04(sc, p)
 		r.Import(sc, "C04.path", "C05.cover", "decode(): with FillGaps (every root) each path returning a value has run d.FillGaps over {0, decodeRange.Len} of the returned decoder before the ranges are rebased, so the root's Range — what tobytes of the root reads — covers every bit it was given (C04.path obligations)", 10, nil)
 	}
+	// the padded reader Binary.toReader hands to every consumer is NewMultiReader(zero pad, section): the pad bits are
+	// zero only if the zero reader clears every byte it reports (including the trailing partial one — the copy buffer is
+	// reused between the parts of a concatenation), reports min(n, left) bits and its end at nBits; MultiReader places
+	// the data right after the pad; BitsByteCount is the byte count of a bit count (borrowed from C01)
+	{
+		sc := r.Scratch()
+		runC01(sc, p)
+		const d = "readers composed by Binary.toReader/bitiox.Range (C01 obligations): ZeroReadAtSeeker.ReadBitsAt returns min(nBits, left) bits for offsets inside the pad and zero-fills BitsByteCount(count) bytes of the caller's buffer (no stale bits in the trailing partial byte); its SeekBits/constructor/clone keep nBits; Section/Limit/Multi readers clamp count and offset to their window; MultiReader.readerEnds is the running sum of its parts and reads part i at bitOff - end(i-1); BitsByteCount(n) = ceil(n/8)"
+		zero := func(k string) bool { return strings.Contains(k, "Zero") }
+		r.Import(sc, "C01.clamp", "C05.padreader", d, 30, nil)
+		r.Import(sc, "C01.multi", "C05.padreader", d, 30, nil)
+		r.Import(sc, "C01.count", "C05.padreader", d, 30, nil)
+		r.Import(sc, "C01.seek", "C05.padreader", d, 30, zero)
+		r.Import(sc, "C01.ctor", "C05.padreader", d, 30, zero)
+		r.Import(sc, "C01.clone", "C05.padreader", d, 30, zero)
+	}
 	r.Assumption("C05: bit-exactness of bitio.SectionReader/MultiReader/IOReader/LimitReader is decided under C01; Value.Range being the range the decoder actually read is C03/C04")
 }
 
